@@ -602,17 +602,22 @@ def c17Step (acc : FwdAcc) (i : Nat) (sin sobs : Json) : FwdAcc :=
   | .ok st =>
   let acc' : FwdAcc := if st.recorded then { acc with recorded := acc.recorded ++ [vid] } else acc
   -- the decision, against ground truth (only when nothing failed and the request went through)
-  let faulty := evs.any fun e => isErr e.resp
+  -- (a document that cannot be fetched is not a failure: the search skips it; what the transport answered is what
+  -- the federation graph is, for the IRIs it was asked about)
+  let faulty := evs.any fun e => isErr e.resp && e.name != "deref"
   let status200 := evs.any fun e => e.name == "writeHeader" && (e.args.getD 0 Json.null).getNat?.toOption == some 200
   let truth := jget sin "remoteDocs"
   if faulty || !status200 || truth.isNull then acc' else
   let ownedL := jIris (jget sin "owned")
   let owns (u : Iri) : Bool := ownedL.contains u
   let derefs : List (Iri × Json) := evs.filterMap fun e => if e.name == "deref" then some ((e.args.getD 0 Json.null).getStr?.toOption.getD "", e.resp) else none
-  let G : Iri → E Doc := fun u => match (truth.getObjVal? u).toOption with
-    | some resp => (eDoc resp).getD (.error .injected)
-    | none => (match derefs.find? (fun d => d.1 == u) with
-      | some (_, resp) => (eDoc resp).getD (.error .injected)
+  -- an IRI answered differently at different times (an injected fault on one of several fetches) is no fixed graph
+  let consistent := derefs.all fun (u, resp) => derefs.all fun (u', resp') => u != u' || resp == resp'
+  if !consistent then acc' else
+  let G : Iri → E Doc := fun u => match derefs.find? (fun d => d.1 == u) with
+    | some (_, resp) => (eDoc resp).getD (.error .injected)
+    | none => (match (truth.getObjVal? u).toOption with
+      | some resp => (eDoc resp).getD (.error .injected)
       | none => .error .injected)
   let depth : Int := fwdDepthOf evs
   let seenBefore := acc.recorded.contains vid
